@@ -51,3 +51,49 @@ Lemma init_statements_known :
    "self.n_modes = n_modes"; "self.n_modes_precompute = n_modes"; "self.init_rank_reduction = init_rank_reduction"; "self.flip_signs = flip_signs";
    "self.solver = solver"; "self.random_state = random_state"; "self.solver_kwargs = solver_kwargs"; "self.is_complex = is_complex"].
 Proof. split; reflexivity. Qed.
+
+(* ---- the decomposition factors are only touched by the statements known here (Gen/T3.v: dec_factor_writes, svd_factor_writes): the call of the
+   back-end, the re-ordering of the iterative complex solver, the truncations, the mode labels and the sign fix. In particular no statement
+   rescales, floors or clips the singular values, and the data handed to the threshold rule is the data the routine was given *)
+Lemma dec_factor_writes_known : dec_factor_writes =
+  ["U, s, VT = self._svd(X, dims, np.linalg.svd, self.solver_kwargs)"%string;
+   "U = U[:, :self.n_modes_precompute]"%string;
+   "s = s[:self.n_modes_precompute]"%string;
+   "VT = VT[:self.n_modes_precompute, :]"%string;
+   "U, s, VT = self._svd(X, dims, randomized_svd, solver_kwargs)"%string;
+   "U, s, VT = self._svd(X / scale, dims, complex_svd, solver_kwargs)"%string;
+   "s = s * scale"%string;
+   "U = U[:, idx_sort]"%string;
+   "s = s[idx_sort]"%string;
+   "VT = VT[idx_sort, :]"%string;
+   "U, s, VT = self._svd(X, dims, dask_svd, solver_kwargs)"%string;
+   "U, s, VT = self._compute_svd_result(U, s, VT)"%string;
+   "U = U.assign_coords(mode=range(1, U.mode.size + 1))"%string;
+   "s = s.assign_coords(mode=range(1, U.mode.size + 1))"%string;
+   "VT = VT.assign_coords(mode=range(1, U.mode.size + 1))"%string;
+   "U = U.sel(mode=slice(1, n_modes_required))"%string;
+   "s = s.sel(mode=slice(1, n_modes_required))"%string;
+   "VT = VT.sel(mode=slice(1, n_modes_required))"%string;
+   "VT *= sign_multiplier"%string;
+   "U *= sign_multiplier"%string].
+Proof. reflexivity. Qed.
+Lemma svd_factor_writes_known : svd_factor_writes =
+  ["U, s, VT = self._svd(X, np.linalg.svd, self.solver_kwargs)"%string;
+   "U = U[:, :self.n_modes_precompute]"%string;
+   "s = s[:self.n_modes_precompute]"%string;
+   "VT = VT[:self.n_modes_precompute, :]"%string;
+   "U, s, VT = self._svd(X, randomized_svd, solver_kwargs)"%string;
+   "U, s, VT = self._svd(X / scale, complex_svd, solver_kwargs)"%string;
+   "s = s * scale"%string;
+   "U = U[:, idx_sort]"%string;
+   "s = s[idx_sort]"%string;
+   "VT = VT[idx_sort, :]"%string;
+   "U, s, VT = self._svd(X, dask_svd, solver_kwargs)"%string;
+   "U, s, VT = wait_on(U, s, VT)"%string;
+   "V = VT.conj().T"%string;
+   "V *= sign_multiplier"%string;
+   "U *= sign_multiplier"%string;
+   "U = U[:, :n_modes_required]"%string;
+   "s = s[:n_modes_required]"%string;
+   "V = V[:, :n_modes_required]"%string].
+Proof. reflexivity. Qed.
